@@ -367,10 +367,35 @@ def finish(ctx, level="proof"):
     return 1 if ctx.violations else 0
 
 
+C2LEAN_FILES = {"C05": ["McountC"], "C07": ["FstackC"], "C08": ["ReportC"], "C19": ["PyTraceC"]}
+
+
+def regen_c2lean(ctx, prop):
+    """Tie T for the decision logic (translators/c2lean.py, DESIGN 5a): regenerate lean/Uft/Gen/<X>C.lean from
+    the tree under test before the equivalence theorems of Props/<prop>Gen.lean are re-checked.  Returns an
+    error text when the translator refuses the function (it left the translated subset), else None."""
+    if prop not in C2LEAN_FILES or not os.path.exists(os.path.join(LEAN, "Uft", "Props", prop + "Gen.lean")):
+        return None
+    ctx.snapshot()
+    sys.path.insert(0, VERIF)
+    from translators import c2lean
+    try:
+        with LeanLock():
+            changed = c2lean.regen(ctx.src, only=C2LEAN_FILES[prop])
+    except c2lean.Refuse as e:
+        return "c2lean refused a function of %s (it left the translated subset): %s" % (C2LEAN_FILES[prop], e)
+    ctx.notes.append("c2lean: %s regenerated from the tree under test (%s)" % (
+        ", ".join(C2LEAN_FILES[prop]), "changed: " + " ".join(changed) if changed else "identical to the last run"))
+    return None
+
+
 def prove(ctx, prop, extra_targets=()):
     """Step 3 of the run flow: build the property's theorems and the driver, audit.
     A failure is recorded as a broken proof obligation (violation w/o failing input
     unless the caller finds one)."""
+    gen_note = regen_c2lean(ctx, prop)
+    if gen_note:
+        return False, [gen_note]
     ok, log = lake_build(prop_modules(prop) + ["uvmodel"] + list(extra_targets))
     if not ok:
         errs = [l for l in log.split("\n") if l.startswith("error")]
